@@ -39,7 +39,9 @@ EventFails(rs, ev) ==
     \cup (IF ev.depth - (rs.depth + ev.thickness) \in -Tol6..Tol6 THEN {} ELSE {"depth_is_cumulative_thickness"})
     \cup (IF ev.norm <= rs.norm + NormSlack(rs.norm) THEN {} ELSE {"intensity_increased"})          \* C04
     [] ev.e = "MsDetect" ->
-         (IF rs.inter /\ rs.plane < Len(rs.planes) /\ ev.plane = rs.plane /\ rs.planes[rs.plane + 1] = ev.after_slice
+         \* the hook reports every exit plane the loop reaches; without intermediate measurements (one configuration, one
+         \* plane) nothing is recorded there and the final wave is detected after the loop, but the plane must be the listed one
+         (IF rs.plane < Len(rs.planes) /\ ev.plane = rs.plane /\ rs.planes[rs.plane + 1] = ev.after_slice
              /\ ev.after_slice = rs.slice - 1 THEN {} ELSE {"detection_not_at_listed_exit_plane"})
     \cup (IF ev.depth - rs.depth \in -Tol6..Tol6 THEN {} ELSE {"detection_depth"})
     [] ev.e = "MsEnd" ->
